@@ -161,6 +161,12 @@ def run_pack(case, scratch, variant="asan", extra_args=(), env=None, preload=Non
             line += b" -nohardlinks"
         for t in g.get("types") or []:
             line += b" -type " + t.encode()
+        if g.get("name") is not None:
+            line += b" -name " + treemodel.pf_quote(g["name"], True)
+        if g.get("path") is not None:
+            line += b" -path " + treemodel.pf_quote(g["path"], True)
+        if g.get("nonrec"):
+            line += b" -nonrecursive"
         line += b" src\n"
         lf = os.path.join(ind, "list.txt")
         with open(lf, "wb") as fh:
@@ -175,6 +181,21 @@ def run_pack(case, scratch, variant="asan", extra_args=(), env=None, preload=Non
 GLOB_TYPE = {"dir": "d", "file": "f", "slink": "l", "chr": "c", "blk": "b", "fifo": "p", "sock": "s"}
 
 
+def glob_match(pat, name, pathname):
+    """fnmatch(3) for patterns made of literals, '*' and '?' (what the generator emits); with pathname=True wildcards do not match '/'"""
+    import re
+    rx = b""
+    for i in range(len(pat)):
+        c = pat[i:i + 1]
+        if c == b"*":
+            rx += b"[^/]*" if pathname else b".*"
+        elif c == b"?":
+            rx += b"[^/]" if pathname else b"."
+        else:
+            rx += re.escape(c)
+    return re.fullmatch(rx, name, re.S) is not None
+
+
 def expected_for_case(case):
     nodes, o, mode = case["nodes"], case["opts"], case["mode"]
     B = o["B"]
@@ -186,12 +207,22 @@ def expected_for_case(case):
     keep = []
     by = {n["path"]: n for n in nodes}
 
+    pre0 = g["prefix"].strip(b"/")
+
     def accepted(n):
         t = n["type"]
         if t == "hlink":
             tn = treemodel.resolve_hlink(nodes, n["path"])
             t = tn["type"]
-        return (not types) or GLOB_TYPE[t] in types
+        if types and GLOB_TYPE[t] not in types:
+            return False
+        if g.get("name") is not None and not glob_match(g["name"], n["path"].rsplit(b"/", 1)[-1], False):
+            return False
+        if g.get("path") is not None and not glob_match(g["path"], (pre0 + b"/" + n["path"]) if pre0 else n["path"], True):
+            return False
+        if g.get("nonrec") and b"/" in n["path"]:
+            return False
+        return True
 
     # an entry is only added if all its parents were added as directories (or already exist)
     for n in nodes:
